@@ -43,6 +43,11 @@ def cases(tier, seed):
                 for pre in ('offset', 'strided'):
                     cs.append({'scen': 'copies', 's': dict(s, op='clone', presliced=pre)})
                     cs.append({'scen': 'save_load_cores', 's': dict(s, sliced=pre)})
+                cs.append({'scen': 'save_load_cores', 's': dict(s, sliced='empty')})
+            if dt in ('complex64', 'float32', 'complex128'):
+                cs.append({'scen': 'copies', 's': dict(s, op='to_other', to='complex128', form='builtin')})
+            if dt == 'float32':
+                cs.append({'scen': 'copies', 's': dict(s, op='to_other', to='float64', form='builtin')})
             if dt == 'float64':
                 cs.append({'scen': 'copies', 's': dict(s, op='to_other', to='float32')})
                 cs.append({'scen': 'copies', 's': dict(s, op='to_other', to='complex128')})
